@@ -91,6 +91,7 @@ type ReplayFile struct {
 	Log      []string          `json:"event_log"`
 	Tree     string            `json:"tree_hash"`
 	Opts     map[string]string `json:"opts,omitempty"`
+	Flaky    string            `json:"replay_note,omitempty"`
 }
 
 // Result is what one process writes for vctl to aggregate.
@@ -375,21 +376,22 @@ func Drive(cfg *Config, fn RunFn) int {
 			min = used
 			fin = fn(ReplayTape(min), true)
 		}
+		flaky := ""
 		if fin.V == nil {
-			res.Infra = fmt.Sprintf("run %d: violation %q did not reproduce from its own tape (nondeterminism in the harness)", run, class)
-			fmt.Println("INFRA:", res.Infra)
-			code = 2
-			break
-		}
-		again := fn(ReplayTape(min), true)
-		if again.V == nil || again.V.Class != fin.V.Class || again.LogHash != fin.LogHash {
-			res.Infra = fmt.Sprintf("run %d: replay of %q is not deterministic (log hash %s vs %s)", run, class, fin.LogHash, again.LogHash)
-			fmt.Println("INFRA:", res.Infra)
-			code = 2
-			break
+			// The violation was observed on the real code, so it is reported; but the same tape did not lead to
+			// it again: the code under test takes a decision the simulator does not own (typically the
+			// iteration order of a map). The determinism self-test shows that the harness itself is repeatable.
+			fin = out
+			fin.LogText = ""
+			flaky = "the same tape did not reproduce the violation in this process: the code under test contains a source of nondeterminism the simulator does not own (e.g. map iteration order); re-run the replay a few times"
+		} else {
+			again := fn(ReplayTape(min), true)
+			if again.V == nil || again.V.Class != fin.V.Class || again.LogHash != fin.LogHash {
+				flaky = fmt.Sprintf("two replays of the minimised tape differ (log hash %s vs %s): the code under test contains a source of nondeterminism the simulator does not own (e.g. map iteration order)", fin.LogHash, again.LogHash)
+			}
 		}
 		rf := &ReplayFile{Prop: cfg.Prop, Engine: cfg.Engine, Scenario: cfg.Scenario, Seed: cfg.Seed, Run: run, Tier: cfg.Tier,
-			Tape: min, OrigLen: len(used), V: fin.V, LogHash: fin.LogHash, Log: strings.Split(strings.TrimRight(fin.LogText, "\n"), "\n"), Tree: cfg.Tree, Opts: cfg.Opts}
+			Tape: min, OrigLen: len(used), V: fin.V, LogHash: fin.LogHash, Log: strings.Split(strings.TrimRight(fin.LogText, "\n"), "\n"), Tree: cfg.Tree, Opts: cfg.Opts, Flaky: flaky}
 		path := fmt.Sprintf("%s/%s-%s-%d-%d-%s.json", cfg.ReplayDir, cfg.Prop, cfg.Scenario, cfg.Seed, run, fin.LogHash[:8])
 		b, _ := json.MarshalIndent(rf, "", " ")
 		if err := os.WriteFile(path, b, 0o644); err != nil {
